@@ -84,10 +84,11 @@ VARIABLES
   chkLate,             \* ... those of them whose check passed although the call's completion record had already been handed over
   tph,                 \* timer thread: [ph |-> "idle" | "refresh" (about to enqueue the empty checkpoint) | "await" (blocked in it), i |-> branch]
   tphAtSusp,           \* history: tph.ph when the suspension was decided ("none" before; "stale" if decided by a stale scan)
-  stale                \* history: callbacks whose running should_execution_suspend() scan overlapped a timer pop
+  stale,               \* history: callbacks whose running should_execution_suspend() scan overlapped a timer pop
+  badSusp              \* history: a suspension was decided although the branch statuses at that moment already decided the policy
 
 vars == <<bst, wph, bpos, sub, fout, scanIdx, scanT, scanI, succ, fail, event, suspExc, timers, mpc, mi, reg, pdone, parentSent,
-          items, reason, active, maxActive, decidedAt, outcomeAt, late, known, result, snap, suspSnap, resub, chk, chkLate, tph, tphAtSusp, stale>>
+          items, reason, active, maxActive, decidedAt, outcomeAt, late, known, result, snap, suspSnap, resub, chk, chkLate, tph, tphAtSusp, stale, badSusp>>
 
 Atom(i) == IF bpos[i] <= Len(Script[i]) THEN Script[i][bpos[i]] ELSE "ok"
 
@@ -101,7 +102,7 @@ Init ==
   /\ items = <<>> /\ reason = "none"
   /\ active = 0 /\ maxActive = 0 /\ decidedAt = <<>> /\ outcomeAt = <<>> /\ late = {} /\ known = {} /\ result = "none"
   /\ snap = [i \in Br |-> {}] /\ suspSnap = {} /\ resub = {} /\ chk = {} /\ chkLate = {}
-  /\ tph = [ph |-> "idle", i |-> 0] /\ tphAtSusp = "none" /\ stale = {}
+  /\ tph = [ph |-> "idle", i |-> 0] /\ tphAtSusp = "none" /\ stale = {} /\ badSusp = FALSE
 
 ---------------------------------------------------------------------------
 \* Completion policy (transcription of ExecutionCounters / BatchResult._get_completion_reason)
@@ -440,6 +441,10 @@ H5 == /\ UNCHANGED tph
                          THEN (IF \E j \in stale : wph[j] = "scan" /\ wph'[j] # "scan" THEN "stale" ELSE tph.ph)
                          ELSE tphAtSusp)
       /\ stale' = {j \in stale : wph'[j] = "scan"}
+      /\ badSusp' = (badSusp \/ (/\ suspExc' # suspExc /\ suspExc' \in {"timed", "indef"}
+                                 /\ ~(\E j \in stale : wph[j] = "scan" /\ wph'[j] # "scan")
+                                 /\ ShouldComplete(Cardinality({i \in Br : bst'[i] = "COMPLETED"}),
+                                                   Cardinality({i \in Br : bst'[i] = "FAILED"}))))
 MainStep == (MainSubmit \/ MainWake \/ MainCancel \/ MainRaiseSuspend \/ MainBuild \/ MainParentMark \/ MainParentCkpt) /\ H3 /\ H4 /\ H5
 WorkerStep(i) ==
   \/ (WorkerTake(i) /\ H3 /\ H4 /\ H5)
@@ -449,8 +454,8 @@ WorkerStep(i) ==
   \/ (CbDecide(i) /\ H3 /\ H4 /\ H5)
   \/ (CbScan(i) /\ suspSnap' = (IF suspExc' # suspExc THEN snap[i] ELSE suspSnap) /\ UNCHANGED <<snap, resub>> /\ H4 /\ H5)
 TimerPopStep(i) == /\ TimerPop(i) /\ resub' = resub \cup {i} /\ UNCHANGED <<snap, suspSnap, tphAtSusp>> /\ H4
-                   /\ stale' = stale \cup {j \in Br : wph[j] = "scan"}
-TimerThreadStep == (TimerPut \/ TimerRefreshed(TRUE) \/ TimerRefreshed(FALSE)) /\ H3 /\ H4 /\ UNCHANGED <<tphAtSusp, stale>>
+                   /\ stale' = stale \cup {j \in Br : wph[j] = "scan"} /\ UNCHANGED badSusp
+TimerThreadStep == (TimerPut \/ TimerRefreshed(TRUE) \/ TimerRefreshed(FALSE)) /\ H3 /\ H4 /\ UNCHANGED <<tphAtSusp, stale, badSusp>>
 TimerStep(i) == TimerPopStep(i) \/ TimerThreadStep
 
 Quiet == /\ mpc = "Returned" \/ (mpc = "Wait" /\ ~event)
@@ -518,8 +523,9 @@ NoKnownOpAfterParentDone == \A x \in late : x[2] \notin {"update"} \/ "orphan-fi
 
 \* C09: the call does not suspend when the recorded branch outcomes already decide the policy (it returns instead)
 StatusCount(st) == Cardinality({i \in Br : bst[i] = st})
-\* (evaluated when the main thread is about to raise the suspend; a decision taken by a stale scan is the named deviation "stale")
-NoSuspendWhenDecided == (mpc = "RaiseSuspend" /\ tphAtSusp # "stale") => ~ShouldComplete(StatusCount("COMPLETED"), StatusCount("FAILED"))
+\* (judged at the moment the suspension is DECIDED; progress made by a resubmitted branch between the decision and the raise, and a
+\*  decision taken by a stale scan, are outside: see `resub`, `stale`)
+NoSuspendWhenDecided == ~badSusp
 
 \* C07: a suspend is raised only when nobody is PENDING/RUNNING
 \* (a branch resubmitted by the timer thread after the deciding branch finished is outside the property's scope; see DESIGN)
